@@ -757,14 +757,14 @@ def gen_empty_winner(tb, thorough):
 # characters the abbreviation syntax allows in an element name / a `${variable}` name (documented syntax, hard-coded:
 # ASCII letters of either case, digits, '-', ':', '_', '!' -- https://docs.emmet.io/abbreviations/syntax/, upstream
 # abbreviation tokenizer `isName`; non-ASCII letters are no name characters), in every case pattern, and the re-cased
-# names of built-in keys (cheat sheet: a, btn, bq, link, inp / lang, charset, locale; stylesheet: pos, m).
+# names of built-in keys (cheat sheet: a, btn, bq, link, inp / lang, charset, locale).
 # Stylesheet snippets are matched by the documented FUZZY, case-insensitive search, so for them only a key that has no
-# case sibling has a stated result: case shapes without siblings.
+# case sibling (planted or built-in) has a stated result: case shapes of a fresh key, without siblings.
 KEY_SHAPES = {
     ('markup', 'snippets'): ['Zzq', 'zzQ', 'zZq', 'ZZQ', 'zz:q', 'zz-q', 'zz_q', 'zzq2', 'zz!q', 'Zz:Q', 'Zz-q2',
                              'Btn', 'BQ', 'Link', 'A', 'inP'],
     ('markup', 'variables'): ['Zzv', 'zzV', 'zZv', 'ZZV', 'zz-v', 'zz_v', 'zzv2', 'Zz-V2', 'Lang', 'CHARSET', 'locaLe'],
-    ('stylesheet', 'snippets'): ['Zzq', 'zzQ', 'zZq', 'ZZQ', 'Pos', 'M'],
+    ('stylesheet', 'snippets'): ['Zzq', 'zzQ', 'zZq', 'ZZQ'],
 }
 KEY_SHAPE_ABBR = {
     ('markup', 'snippets'): ('%s', 'span.%s'),
